@@ -706,6 +706,216 @@ pub fn check_pairs(bytes: &[u8], ctx: &mut Ctx) -> Verdict {
     }
 }
 
+
+// ---------------------------------------------------------------------------------------------
+// third family: blocks inside blocks - an adjacent command (under many) whose body is itself an
+// adjacent group (`draw --point X Y`) or a regular subcommand (`remote add NAME [--url URL]`),
+// next to switches of the enclosing level. An inner block must stay inside the outer one: an
+// enclosing switch typed inside a block splits it.
+// ---------------------------------------------------------------------------------------------
+
+pub struct NestedCase {
+    pub level: Level,
+    pub argv: Vec<Vec<u8>>,
+    pub tokens: Vec<Vec<u8>>,
+    pub n_blocks: usize,
+    pub first_present: bool,
+    pub last_present: Option<bool>,
+    pub split: bool,
+    pub inner_is_command: bool,
+}
+
+pub fn decode_nested(bytes: &[u8]) -> NestedCase {
+    let mut u = Un::new(bytes);
+    let mut names = Names::new();
+    let first = gen_named_leaf(&mut u, &mut names, NamedKind::Switch);
+    let last = if u.bool() {
+        Some(gen_named_leaf(&mut u, &mut names, NamedKind::Switch))
+    } else {
+        None
+    };
+    let outer_name = names.cmd(&mut u);
+    let inner_is_command = u.bool();
+    let lead = gen_named_leaf(&mut u, &mut names, NamedKind::ReqFlag);
+    let url = sarg(&mut u, &mut names);
+    let inner_name = names.cmd(&mut u);
+    let n_pos = 1 + u.below(2);
+    let body = if inner_is_command {
+        // positionals go last in their structure
+        let mut f = vec![Node::Optional {
+            n: Node::Named(url.clone()).b(),
+            catch: false,
+        }];
+        for i in 0..n_pos {
+            f.push(Node::Pos(spos(&mut names, &format!("N{}", i))));
+        }
+        Node::Cmd(Box::new(CmdSpec {
+            name: inner_name.clone(),
+            shorts: Vec::new(),
+            longs: Vec::new(),
+            help: None,
+            adjacent: false,
+            level: Level::simple(Node::Seq(f)),
+        }))
+    } else {
+        let mut m = vec![Node::Named(lead.clone())];
+        for i in 0..n_pos {
+            m.push(Node::Pos(spos(&mut names, &format!("P{}", i))));
+        }
+        Node::Adjacent(m)
+    };
+    let outer = Node::Cmd(Box::new(CmdSpec {
+        name: outer_name.clone(),
+        shorts: Vec::new(),
+        longs: Vec::new(),
+        help: None,
+        adjacent: true,
+        level: Level::simple(Node::Seq(vec![body])),
+    }));
+    // commands go last in their structure: both switches are declared in front of the chain
+    let mut fields = vec![Node::Named(first.clone())];
+    if let Some(l) = &last {
+        fields.push(Node::Named(l.clone()));
+    }
+    fields.push(Node::Many {
+        n: outer.b(),
+        catch: false,
+    });
+    let level = Level::simple(Node::Seq(fields));
+
+    // the line
+    let n_blocks = 1 + u.below(2);
+    let mut tokens: Vec<Vec<u8>> = Vec::new();
+    let mut blocks: Vec<Vec<Vec<u8>>> = Vec::new();
+    let mut tok = 0;
+    for _ in 0..n_blocks {
+        let mut b = vec![outer_name.clone().into_bytes()];
+        if inner_is_command {
+            b.push(inner_name.clone().into_bytes());
+        } else {
+            b.push(name_item(&mut u, &lead));
+        }
+        // in the value the optional argument comes first (declaration order), on the line last
+        let url_tok = if inner_is_command && u.chance(170) {
+            tok += 1;
+            let t = format!("u{}", tok);
+            tokens.push(t.clone().into_bytes());
+            Some(t)
+        } else {
+            None
+        };
+        for _ in 0..n_pos {
+            tok += 1;
+            let t = format!("w{}", tok).into_bytes();
+            tokens.push(t.clone());
+            b.push(t);
+        }
+        if let Some(t) = url_tok {
+            b.extend(arg_items(&mut u, &url, &t));
+        }
+        blocks.push(b);
+    }
+    let first_present = u.chance(200);
+    let split = first_present && u.chance(128);
+    // gaps: 0 = in front of the first block .. n_blocks = behind the last one
+    let first_gap = u.below(n_blocks + 1);
+    let split_block = u.below(n_blocks);
+    let split_at = 1 + u.below(blocks[split_block].len() - 1);
+    let last_present = last.as_ref().map(|_| u.bool());
+    let last_gap = u.below(n_blocks + 1);
+    let last_before_first = u.bool();
+    let mut argv: Vec<Vec<u8>> = Vec::new();
+    let first_item = name_item(&mut u, &first);
+    let last_item = last.as_ref().map(|l| name_item(&mut u, l));
+    for gap in 0..=n_blocks {
+        let mut here: Vec<Vec<u8>> = Vec::new();
+        if first_present && !split && first_gap == gap {
+            here.push(first_item.clone());
+        }
+        if last_present == Some(true) && last_gap == gap {
+            let it = last_item.clone().unwrap();
+            if last_before_first {
+                here.insert(0, it);
+            } else {
+                here.push(it);
+            }
+        }
+        argv.extend(here);
+        if gap < n_blocks {
+            for (j, it) in blocks[gap].iter().enumerate() {
+                if split && gap == split_block && j == split_at {
+                    argv.push(first_item.clone());
+                }
+                argv.push(it.clone());
+            }
+        }
+    }
+    NestedCase {
+        level,
+        argv,
+        tokens,
+        n_blocks,
+        first_present,
+        last_present,
+        split,
+        inner_is_command,
+    }
+}
+
+pub fn check_nested(bytes: &[u8], ctx: &mut Ctx) -> Verdict {
+    let case = decode_nested(bytes);
+    let parser = match guarded(|| {
+        let p = build_level(&case.level);
+        p.check_invariants(false);
+        p
+    }) {
+        Ok(p) => p,
+        Err((at, msg)) => {
+            return Verdict::fail(
+                "generator/invariants",
+                format!("{}: check_invariants panicked at {}: {}", show_level(&case.level), at, msg),
+            )
+        }
+    };
+    let out = run(&parser, &case.argv);
+    ctx.eval(1);
+    ctx.class(if case.inner_is_command {
+        "family:command-inside-adjacent-command"
+    } else {
+        "family:group-inside-adjacent-command"
+    });
+    if case.split {
+        ctx.class("nested:enclosing-switch-inside-a-block");
+    }
+    if case.split || (case.n_blocks >= 2 && (case.first_present || case.last_present == Some(true))) {
+        ctx.nontrivial(fnv_str(&format!("{:?}{:?}", case.level, case.argv)));
+    }
+    let describe = |what: &str| format!("{} on {:?} -> {}", show_level(&case.level), show_argv(&case.argv), what);
+    match (&out, case.split) {
+        (Outcome::Panic { at, msg }, _) => Verdict::fail(format!("panic@{}", at), msg.clone()),
+        (Outcome::Stderr(_), true) => Verdict::Pass,
+        (other, true) => Verdict::fail("nested/split-block-accepted", describe(&other.short())),
+        (Outcome::Value(v), false) => {
+            let mut leaves = Vec::new();
+            v.leaves(&mut leaves);
+            let shape_ok = match v {
+                V::Tup(top) => {
+                    top.first() == Some(&V::Bool(case.first_present))
+                        && matches!(top.last(), Some(V::List(xs)) if xs.len() == case.n_blocks)
+                        && case.last_present.map_or(true, |p| top.get(1) == Some(&V::Bool(p)))
+                }
+                _ => false,
+            };
+            if leaves == case.tokens && shape_ok {
+                Verdict::Pass
+            } else {
+                Verdict::fail("nested/wrong-value", describe(&v.to_string()))
+            }
+        }
+        (other, false) => Verdict::fail("nested/well-formed-blocks-rejected", describe(&other.short())),
+    }
+}
+
 impl Prop for C19 {
     fn id(&self) -> &'static str {
         "C19"
@@ -723,7 +933,12 @@ impl Prop for C19 {
          by construction - one value per block in command line order plus the ordinary values of \
          the other items; split / short (required member) / lead-not-first blocks must fail on \
          stderr; and on EVERY accepted line the tokens of each returned group value occupy one \
-         contiguous run of items that starts at the group's leading item. Non-trivial: >=2 blocks \
+         contiguous run of items that starts at the group's leading item. Two smaller families \
+         (one case in sixteen each): pairs of strict positionals right of `--`; and blocks inside \
+         blocks - an adjacent command under many whose body is an adjacent group or a regular \
+         subcommand with an optional argument, next to switches of the enclosing level: well \
+         formed lines yield one value per block with exactly the tokens written, an enclosing \
+         switch typed inside a block must fail. Non-trivial: >=2 blocks \
          with another option between them, or a mutated block; distinct by hash of (definition, \
          argv)."
     }
@@ -731,6 +946,10 @@ impl Prop for C19 {
         // one case in sixteen belongs to the second family
         if bytes.first().map_or(false, |b| b % 16 == 15) {
             return check_pairs(&bytes[1..], ctx);
+        }
+        // and one in sixteen to the third
+        if bytes.first().map_or(false, |b| b % 16 == 14) {
+            return check_nested(&bytes[1..], ctx);
         }
         let case = decode(bytes);
         let parser = match guarded(|| {
@@ -883,6 +1102,15 @@ impl Prop for C19 {
                 "family": "adjacent pairs of positionals right of --",
                 "definition": show_level(&c.level),
                 "argv": show_argv(&c.argv),
+            });
+        }
+        if bytes.first().map_or(false, |b| b % 16 == 14) {
+            let c = decode_nested(&bytes[1..]);
+            return json!({
+                "family": "blocks inside the block of an adjacent command",
+                "definition": show_level(&c.level),
+                "argv": show_argv(&c.argv),
+                "enclosing switch inside a block (must fail)": c.split,
             });
         }
         let case = decode(bytes);
